@@ -22,7 +22,8 @@ try:
     cov = json.loads((V / "build" / "cov" / (pid + ".json")).read_text())
 except Exception:
     cov = {}
-wt = Path("/tmp/mut-" + pid)
+TAG = os.environ.get("MUT_TAG", "")      # MUT_TAG: separate worktree / result file for a second audit of the same property
+wt = Path("/tmp/mut-" + pid + TAG)
 
 
 def sh(cmd, cwd=None, env=None, timeout=None):
@@ -123,6 +124,6 @@ for (f, n, a, b, new, line) in cands:
     print("%-16s %s:%d  %s  =>  %s" % (entry["verdict"], f, n, entry["from"][:70], entry["to"][:70]), flush=True)
 sh(f"git -C /repo worktree remove --force {wt}")
 (V / "build" / "mut").mkdir(parents=True, exist_ok=True)
-(V / "build" / "mut" / (pid + ".json")).write_text(json.dumps(results, indent=1))
+(V / "build" / "mut" / (pid + TAG + ".json")).write_text(json.dumps(results, indent=1))
 from collections import Counter
 print(pid, dict(Counter(r["verdict"] for r in results)))
